@@ -11,7 +11,12 @@ DEFAULTS = {"int": ["7", "0"], "str": ["'d'", "''"], "PositiveInt": ["3"], "List
             "Optional[int]": ["None", "9"], "bool": ["False", "True"]}
 
 
-def rand_class(rng, allow_options=True):
+THEMES = ["mixed", "mixed", "deps-exclude", "alias-ci", "modes"]
+
+
+def rand_class(rng, allow_options=True, theme=None):
+    theme = theme or rng.choice(THEMES)
+    boost = lambda p, *themes: (0.6 if theme in themes else p)
     name = dyn.fresh("Fc")
     base = rng.choice(["Schema", "Schema", "DataClass"])
     n = rng.randint(1, 4)
@@ -26,48 +31,48 @@ def rand_class(rng, allow_options=True):
         if rng.random() < 0.2: okw["addition"] = rng.choice([True, False])
         if rng.random() < 0.1: okw["max_params"] = rng.choice([1, 2, 3])
         if rng.random() < 0.1: okw["min_params"] = rng.choice([1, 2])
-        if rng.random() < 0.15: okw["mode"] = rng.choice(["r", "w", "a"])
+        if rng.random() < boost(0.15, "modes"): okw["mode"] = rng.choice(["r", "w", "a"])
         if rng.random() < 0.12: okw["case_insensitive"] = True
         if rng.random() < 0.3: okw["data_first_search"] = rng.choice([True, False])
         if rng.random() < 0.15: okw["collect_errors"] = True
-        if rng.random() < 0.1: okw["invalid_values"] = rng.choice(["exclude", "preserve"])
+        if rng.random() < boost(0.2, "deps-exclude") * 0.7: okw["invalid_values"] = rng.choice(["exclude", "exclude", "preserve"])
     if okw:
         lines.append("    __options__ = Options(%s)" % ", ".join("%s=%r" % kv for kv in okw.items()))
     names = ["a", "b", "c", "d"][:n]
     for fname in names:
         t = rng.choice(TYPES)
         fkw = []
-        meta = dict(attname=fname, type=t, aliases=[fname], ci=False)
+        meta = dict(attname=fname, type=t, aliases=[fname], ci=False, theme=theme)
         r = rng.random()
         default = None
-        if r < 0.45:
+        if r < (0.25 if theme == "deps-exclude" else 0.45):
             default = rng.choice(DEFAULTS[t])
-        if rng.random() < 0.25:
+        if rng.random() < boost(0.25, "alias-ci"):
             al = fname + "_out"
             fkw.append("alias=%r" % al)
             meta["alias"] = al
-        if rng.random() < 0.25:
+        if rng.random() < boost(0.25, "alias-ci"):
             af = rng.sample([fname + "1", fname + "2", fname.upper() + "x"], rng.randint(1, 2))
             fkw.append("alias_from=%r" % af)
             meta["aliases"] += af
-        if rng.random() < 0.12:
+        if rng.random() < boost(0.12, "alias-ci") * 0.7:
             fkw.append("case_insensitive=True")
             meta["ci"] = True
-        if rng.random() < 0.1:
+        if rng.random() < boost(0.1, "modes") * 0.6:
             fkw.append("no_input=%r" % rng.choice([True, "r", "w", "a"]))
-        if rng.random() < 0.1:
+        if rng.random() < boost(0.1, "modes") * 0.6:
             fkw.append("no_output=%r" % rng.choice([True, "r", "w"]))
-        if rng.random() < 0.12:
+        if rng.random() < boost(0.12, "modes") * 0.7:
             fkw.append(rng.choice(["mode='r'", "mode='w'", "mode='rw'", "readonly=True", "writeonly=True"]))
-        if rng.random() < 0.1 and default is None:
-            fkw.append("required=%r" % rng.choice([False, "r", "w", "a"]))
+        if rng.random() < boost(0.2, "deps-exclude", "modes") and default is None:
+            fkw.append("required=%r" % (False if theme == "deps-exclude" else rng.choice([False, False, "r", "w", "a"])))
         if rng.random() < 0.08 and default is not None:
             fkw.append("defer_default=True")
-        if rng.random() < 0.1 and len(names) > 1:
+        if rng.random() < boost(0.22, "deps-exclude") and len(names) > 1:
             dep = rng.choice([x for x in names if x != fname])
             fkw.append("dependencies=[%r]" % dep)
-        if rng.random() < 0.1 and t in BADV and (default is not None or "required=False" in " ".join(fkw)):
-            fkw.append("on_error=%r" % rng.choice(["exclude", "preserve"]))
+        if rng.random() < boost(0.25, "deps-exclude") and t in BADV and (default is not None or "required=False" in " ".join(fkw)):
+            fkw.append("on_error=%r" % rng.choice(["exclude", "exclude", "preserve"]))
         if default is not None and default.startswith("Field("):
             fkw.insert(0, "default_factory=list")
             default = None
@@ -94,14 +99,14 @@ def rand_input(rng, fields):
     data = {}
     for f in fields:
         r = rng.random()
-        if r < 0.15:
+        if r < (0.35 if f.get("theme") == "deps-exclude" else 0.15):
             continue
         keys = list(f["aliases"]) + ([f["alias"]] if "alias" in f else [])
         k = rng.choice(keys)
         if rng.random() < 0.25:
             k = rng.choice([k.upper(), k.lower(), k.capitalize()])
         t = f["type"]
-        v = rng.choice(BADV[t]) if (t in BADV and rng.random() < 0.2) else rng.choice(GOODV[t])
+        v = rng.choice(BADV[t]) if (t in BADV and rng.random() < (0.5 if f.get("theme") == "deps-exclude" else 0.3)) else rng.choice(GOODV[t])
         data[k] = v
         if rng.random() < 0.2 and len(keys) > 1:       # the same field under a second accepted name
             k2 = rng.choice([x for x in keys if x != k])
@@ -111,3 +116,133 @@ def rand_input(rng, fields):
     items = list(data.items())
     rng.shuffle(items)
     return dict(items)
+
+
+# ---- systematic small classes: a few features per field, every combination of per-field input states ----
+FEATURES = ["default", "optional", "alias", "alias_from", "ci", "no_input", "no_output", "mode", "exclude", "preserve",
+            "defer_default", "immutable", "depends", "required_mode"]
+CLASS_OPTS = [{}, {}, {"ignore_required": True}, {"no_default": True}, {"force_default": 0}, {"defer_default": True},
+              {"addition": True}, {"addition": False}, {"mode": "r"}, {"mode": "w"}, {"case_insensitive": True},
+              {"invalid_values": "exclude"}, {"collect_errors": True}, {"min_params": 2}, {"max_params": 2}]
+
+
+def feature_pairs():
+    import itertools
+    return [set(p) for p in itertools.combinations(FEATURES, 2) if set(p) != {"exclude", "preserve"}]
+
+
+def small_class(rng, first_feats=None, forced_dfs=None):
+    """2-3 fields, 1-3 features each (the first field: the given ones), one class option"""
+    name = dyn.fresh("Sm")
+    base = rng.choice(["Schema", "Schema", "DataClass"])
+    n = rng.choice([2, 2, 3]) if first_feats is None else rng.choice([2, 2, 2, 3])
+    names = ["a", "b", "c"][:n]
+    okw = dict(rng.choice(CLASS_OPTS))
+    if forced_dfs is not None:
+        okw["data_first_search"] = forced_dfs
+    elif rng.random() < 0.5:
+        okw["data_first_search"] = rng.choice([True, False])
+    lines = ["class %s(%s):" % (name, base)]
+    if okw:
+        lines.append("    __options__ = Options(%s)" % ", ".join("%s=%r" % kv for kv in okw.items()))
+    fields = []
+    for fname in names:
+        t = rng.choice(["int", "PositiveInt", "str", "Optional[int]", "bool"])
+        if first_feats is not None and fname == "a":
+            feats = set(first_feats)
+            if rng.random() < 0.3:
+                feats.add(rng.choice(FEATURES))
+            if feats & {"exclude", "preserve"}:
+                t = rng.choice(["int", "PositiveInt", "Optional[int]"])
+        else:
+            feats = set(rng.sample(FEATURES, rng.randint(0 if first_feats is not None else 1, 3 if first_feats is None else 2)))
+            if first_feats is not None and rng.random() < 0.85:
+                feats.add(rng.choice(["optional", "default"]))    # the other fields are mostly not required
+        if "exclude" in feats and "preserve" in feats:
+            feats.discard("preserve")
+        fkw = []
+        meta = dict(attname=fname, type=t, aliases=[fname], ci=False, theme="small")
+        has_default = "default" in feats or "defer_default" in feats
+        if has_default:
+            fkw.append("default=%s" % rng.choice([d for d in DEFAULTS[t] if not d.startswith("Field(")]))
+        elif "optional" in feats or "exclude" in feats:
+            fkw.append("required=False")
+        elif "required_mode" in feats:
+            fkw.append("required=%r" % rng.choice(["r", "w", "a"]))
+        if "alias" in feats:
+            fkw.append("alias=%r" % (fname + "_out")); meta["alias"] = fname + "_out"
+        if "alias_from" in feats:
+            af = [fname + "1", fname.upper() + "x"][:rng.randint(1, 2)]
+            fkw.append("alias_from=%r" % af); meta["aliases"] += af
+        if "ci" in feats:
+            fkw.append("case_insensitive=True"); meta["ci"] = True
+        if "no_input" in feats:
+            fkw.append("no_input=%r" % rng.choice([True, "r", "w", "a"]))
+        if "no_output" in feats:
+            fkw.append("no_output=%r" % rng.choice([True, "r", "w"]))
+        if "mode" in feats:
+            fkw.append(rng.choice(["mode='r'", "mode='w'", "mode='rw'", "readonly=True", "writeonly=True"]))
+        if "exclude" in feats and t in BADV:
+            fkw.append("on_error='exclude'")
+        if "preserve" in feats and t in BADV:
+            fkw.append("on_error='preserve'")
+        if "defer_default" in feats:
+            fkw.append("defer_default=True")
+        if "immutable" in feats:
+            fkw.append("immutable=True")
+        if "depends" in feats:
+            fkw.append("dependencies=[%r]" % rng.choice([x for x in names if x != fname]))
+        lines.append("    %s: %s%s" % (fname, t, (" = Field(%s)" % ", ".join(fkw)) if fkw else ""))
+        fields.append(meta)
+    return name, "\n".join(lines) + "\n", fields, okw
+
+
+def declare_small(rng, tries=30, first_feats=None, forced_dfs=None):
+    for _ in range(tries):
+        name, src, fields, okw = small_class(rng, first_feats, forced_dfs)
+        try:
+            dyn.declare(src)
+            return name, src, fields, okw
+        except Exception:
+            continue
+    raise RuntimeError("could not declare a class")
+
+
+STATES = ["absent", "valid", "invalid", "alias", "twice-same", "twice-diff", "case"]
+
+
+def state_inputs(rng, fields, limit=24):
+    """inputs covering combinations of per-field input states"""
+    import itertools
+    combos = list(itertools.product(STATES, repeat=len(fields)))
+    rng.shuffle(combos)
+    out = []
+    for combo in combos[:limit]:
+        items = []
+        for f, st in zip(fields, combo):
+            t = f["type"]
+            keys = list(f["aliases"]) + ([f["alias"]] if "alias" in f else [])
+            good = rng.choice(GOODV[t])
+            if st == "absent":
+                continue
+            if st == "valid":
+                items.append((keys[0], good))
+            elif st == "invalid":
+                items.append((rng.choice(keys), rng.choice(BADV[t]) if t in BADV else good))
+            elif st == "alias":
+                items.append((keys[-1], good))
+            elif st == "case":
+                k = rng.choice(keys)
+                items.append((rng.choice([k.upper(), k.capitalize()]), good))
+            elif st in ("twice-same", "twice-diff"):
+                if len(keys) > 1:
+                    k1, k2 = rng.sample(keys, 2)
+                else:
+                    k1, k2 = keys[0], keys[0].upper()
+                items.append((k1, good))
+                items.append((k2, good if st == "twice-same" else rng.choice([x for x in GOODV[t] if x != good] or [good])))
+        if rng.random() < 0.2:
+            items.append((rng.choice(["zz", "extra"]), rng.choice([1, "x"])))
+        rng.shuffle(items)
+        out.append(dict(items))
+    return out
